@@ -110,7 +110,14 @@ TraceEndPkg ==
                                pm == PlanFor(cc, Tree, f)
                            IN IF pm[1] = "ok" THEN ConfClauses(f, pm[2], evs) \cap {"C08.conf_registered"} ELSE {}
                       ELSE {}
-         all == resultCl \cup pay[1] \cup pay[2] \cup other \cup c13 \cup c13pk \cup c05 \cup strayStruct \cup strayConf
+         \* C08: the rpm special types (ghost, doc, licence, readme) exist in rpm only - in no other format does such an entry
+         \* bring anything into the package (a path only such entries would bring is not there)
+         c08rpm == IF built /\ expect /\ f # "rpm" /\
+                      \E i \in 1..Len(c.entries) : /\ c.entries[i].type \in RpmOnly /\ c.entries[i].tag \in {"", f}
+                                                    /\ Norm(c.entries[i].dst) \in ObsPaths(f, evs)
+                                                    /\ ~\E k \in DOMAIN m : KeyPath(k) = Norm(c.entries[i].dst)
+                   THEN {"C08.rpm_special_types_only_in_rpm"} ELSE {}
+         all == resultCl \cup pay[1] \cup pay[2] \cup other \cup c13 \cup c13pk \cup c05 \cup strayStruct \cup strayConf \cup c08rpm
      IN /\ viol' = AddViol({ <<cid, pkgLine, n>> : n \in { x \in all : ~IsDoc(x) } })
         /\ drift' = AddDrift({ <<cid, pkgLine, n>> : n \in { x \in all : IsDoc(x) } })
         /\ merr' = IF expect /\ ~PlanInvOf(CtxOf(c, Tree, f), m) THEN merr \cup {<<cid, pkgLine, "PlanInv">>} ELSE merr
